@@ -14,7 +14,7 @@
 From Coq Require Import List ZArith.
 Import ListNotations.
 From OV Require Import C01.Codec C01.CodecProofs C01.Builtins C01.VariantProofs C01.Types C01.TypesProofs
-  C01.Model C01.Proofs Gen.C01ServiceTypes.
+  C01.Model C01.Proofs C01.DecodedWf Gen.C01ServiceTypes.
 Open Scope Z_scope.
 
 (* every built-in type (k = encoding mask 1..22, 25), Variant and DataValue *)
@@ -76,6 +76,37 @@ Print Assumptions C01_roundtrip.
 Theorem C01_oracle : forall c, valid c -> known c = 0 -> oracle c (Model.run c) = true.
 Proof. exact oracle_holds. Qed.
 Print Assumptions C01_oracle.
+
+(* Everything a decoder accepts from a byte string is a well-formed value (never a panic), so the law
+   above applies to it; stated for every type descriptor whose enumeration widths are positive
+   (ty_sane; all generated descriptors are: C01_generated_sane) *)
+Theorem C01_decoded_wf : forall o d t bs, offset_ns o = 0 -> ty_sane t -> byte_list bs ->
+  match Codec.run (dec_ty t o d) bs with
+  | Ok (v, rest) => wf_ty t v /\ byte_list rest
+  | Err _ => True
+  | Panic _ => False
+  end.
+Proof. exact decoded_wf_run. Qed.
+Print Assumptions C01_decoded_wf.
+
+Theorem C01_generated_sane : Forall ty_sane Gen.C01ServiceTypes.all_structs.
+Proof. exact all_structs_sane. Qed.
+Print Assumptions C01_generated_sane.
+
+(* hence: whatever bytes are accepted, re-encoding the decoded value and decoding again (embedded in
+   front of any bytes) gives the value's normal form and consumes exactly the re-encoding *)
+Theorem C01_accepted_bytes_roundtrip : forall t o bs v rest more, plain o -> ty_sane t -> byte_list bs ->
+  Codec.run (dec_ty t o (depth0 o)) bs = Ok (v, rest) -> fits_ty t o (depth0 o) v = true ->
+  Codec.run (dec_ty t o (depth0 o)) (enc_ty t v ++ more) = Ok (norm_ty t v, more).
+Proof. exact accepted_bytes_roundtrip. Qed.
+Print Assumptions C01_accepted_bytes_roundtrip.
+
+(* the oracle on the model for the bytes cases, without the hypotheses on the decoded value that
+   `valid` carries *)
+Theorem C01_oracle_bytes : forall t o bs, plain o -> ty_sane t -> byte_list bs ->
+  oracle (CBytes t o bs) (Model.run (CBytes t o bs)) = true.
+Proof. exact oracle_bytes_holds. Qed.
+Print Assumptions C01_oracle_bytes.
 
 (* before "fix: empty variant arrays with dimensions ...": the empty Int32 array with dimensions
    Some [] was written as 9 bytes of which its own decoder consumes 5 *)
